@@ -179,6 +179,75 @@ impl<M: Hash + Clone + Eq, A: Ord + Hash + Clone> CmRDT for Orswot<M, A> {
 //@end
 }
 
+pub open spec fn rr_keep<M, A: Ord>(m: M, e: SMap<A, u64>, o: Option<(M, VClock<A>)>, c: SMap<A, u64>) -> bool {
+    if vsub(e, c) == SMap::<A, u64>::empty() { o is None } else { o matches Some(q) && q.0 == m && q.1@ == vsub(e, c) }
+}
+pub open spec fn rr_keep_d<M, A: Ord>(k: SMap<A, u64>, v: HashSet<M>, o: Option<(VClock<A>, HashSet<M>)>, c: SMap<A, u64>) -> bool {
+    if vsub(k, c) == SMap::<A, u64>::empty() { o is None } else { o matches Some(q) && q.0@ == vsub(k, c) && q.1 == v }
+}
+
+pub proof fn lemma_rr_entries<M: Hash + Eq, A: Ord + Hash>(old_: Orswot<M, A>, s1: Orswot<M, A>, c: SMap<A, u64>)
+    requires
+        old_.wf(), nz(s1.cl()), s1.defs() == old_.defs(),
+        forall|k: M| #[trigger] s1.ents().contains_key(k) ==> old_.ents().contains_key(k) && rr_keep(k, old_.ents()[k]@, Some((k, s1.ents()[k])), c),
+        forall|k: M| #[trigger] old_.ents().contains_key(k) && !s1.ents().contains_key(k) ==> rr_keep(k, old_.ents()[k]@, None, c),
+    ensures
+        s1.wf(),
+        forall|m: M| #[trigger] s1.ec(m) == vsub(old_.ec(m), c),
+{
+    assert forall|m: M| s1.ents().contains_key(m) implies nz(#[trigger] s1.ents()[m]@) && s1.ents()[m]@ != SMap::<A, u64>::empty() by {
+        assert(old_.ents().contains_key(m)); c10_vsub_nz(old_.ents()[m]@, c);
+    }
+    assert forall|m: M| #[trigger] s1.ec(m) == vsub(old_.ec(m), c) by {
+        if old_.ents().contains_key(m) {
+            if !s1.ents().contains_key(m) { assert(rr_keep(m, old_.ents()[m]@, None::<(M, VClock<A>)>, c)); }
+        } else {
+            assert(!s1.ents().contains_key(m));
+            assert(vsub(SMap::<A, u64>::empty(), c) =~= SMap::<A, u64>::empty());
+        }
+    }
+}
+
+pub proof fn lemma_rr_deferred<M: Hash + Eq, A: Ord + Hash>(old_: Orswot<M, A>, s2: Orswot<M, A>, c: SMap<A, u64>)
+    requires
+        old_.wf(), nz(s2.cl()),
+        forall|m: M| s2.ents().contains_key(m) ==> nz(#[trigger] s2.ents()[m]@) && s2.ents()[m]@ != SMap::<A, u64>::empty(),
+        forall|k2: VClock<A>| #[trigger] s2.defs().contains_key(k2) ==> exists|k: VClock<A>| old_.defs().contains_key(k) && #[trigger] rr_keep_d(k@, old_.defs()[k], Some((k2, s2.defs()[k2])), c),
+        forall|k: VClock<A>| #[trigger] old_.defs().contains_key(k) ==> exists|o: Option<(VClock<A>, HashSet<M>)>| #[trigger] rr_keep_d(k@, old_.defs()[k], o, c) && (o matches Some(q) ==> s2.defs().contains_key(q.0)),
+    ensures
+        s2.wf(),
+        forall|k2: VClock<A>| #[trigger] s2.defs().contains_key(k2) ==> exists|k: VClock<A>| #[trigger] old_.defs().contains_key(k) && k2@ == vsub(k@, c) && s2.defs()[k2] == old_.defs()[k],
+        forall|k: VClock<A>| #[trigger] old_.defs().contains_key(k) && vsub(k@, c) != SMap::<A, u64>::empty() ==> exists|k2: VClock<A>| #[trigger] s2.defs().contains_key(k2) && k2@ == vsub(k@, c),
+{
+    assert forall|k: VClock<A>| #[trigger] old_.defs().contains_key(k) && vsub(k@, c) != SMap::<A, u64>::empty() implies exists|k2: VClock<A>| #[trigger] s2.defs().contains_key(k2) && k2@ == vsub(k@, c) by {
+        let o = choose|o: Option<(VClock<A>, HashSet<M>)>| #[trigger] rr_keep_d(k@, old_.defs()[k], o, c) && (o matches Some(q) ==> s2.defs().contains_key(q.0));
+        let q = o->Some_0;
+        assert(s2.defs().contains_key(q.0) && q.0@ == vsub(k@, c));
+    }
+    assert forall|k2: VClock<A>| #[trigger] s2.defs().contains_key(k2) implies nz(k2@) && exists|k: VClock<A>| #[trigger] old_.defs().contains_key(k) && k2@ == vsub(k@, c) && s2.defs()[k2] == old_.defs()[k] by {
+        let k = choose|k: VClock<A>| old_.defs().contains_key(k) && #[trigger] rr_keep_d(k@, old_.defs()[k], Some((k2, s2.defs()[k2])), c);
+        assert(old_.defs().contains_key(k));
+        c10_vsub_nz(k@, c);
+    }
+    assert forall|k2: VClock<A>| #[trigger] s2.deferred@.contains_key(k2) implies nz(k2@) by { assert(s2.defs().contains_key(k2)); }
+    assert(nz(s2.clock@));
+    assert forall|m: M| s2.entries@.contains_key(m) implies nz(#[trigger] s2.entries@[m]@) && s2.entries@[m]@ != SMap::<A, u64>::empty() by { assert(s2.ents().contains_key(m)); }
+}
+
+/// exec `==` on members is spec equality (usage hypothesis on the member type)
+pub open spec fn eq_ok<M: PartialEq>() -> bool {
+    M::obeys_eq_spec() && forall|x: M, y: M| #[trigger] x.eq_spec(&y) <==> x == y
+}
+pub proof fn lemma_eq_ok<M: PartialEq>(x: M, y: M) requires eq_ok::<M>() ensures x.eq_spec(&y) <==> x == y {}
+
+/// dot (a, n) is a current witness of member m in s and of a different member m2 in o
+pub open spec fn conflict<M: Hash + Eq, A: Ord + Hash>(s: Orswot<M, A>, o: Orswot<M, A>, m: M, m2: M, a: A) -> bool {
+    s.ents().contains_key(m) && o.ents().contains_key(m2) && m != m2 && cnt(s.ec(m), a) != 0 && cnt(s.ec(m), a) == cnt(o.ec(m2), a)
+}
+pub open spec fn double_spent<M: Hash + Eq, A: Ord + Hash>(s: Orswot<M, A>, o: Orswot<M, A>) -> bool {
+    exists|m: M, m2: M, a: A| #[trigger] conflict(s, o, m, m2, a)
+}
+
 /// per-actor merge of the witness counters of one member: a counter survives when both sides
 /// hold it, or one side holds it and the other side has not seen it (its clock does not cover it)
 pub open spec fn mrg(es: u64, eo: u64, cs: u64, co: u64) -> u64 {
@@ -190,8 +259,61 @@ impl<M: Hash + Eq + Clone, A: Ord + Hash + Clone> CvRDT for Orswot<M, A> {
     open spec fn cv_inv(&self) -> bool { params_ok::<M, A>() && self.wf() }
     open spec fn cv_pre(&self, other: &Self) -> bool { true }
 
-    #[verifier::external_body]
-    fn validate_merge(&self, other: &Self) -> Result<(), Self::Validation> { unimplemented!() }
+//@extract fn src/orswot.rs "CvRDT for Orswot" validate_merge
+    fn validate_merge(&self, other: &Self) -> /*@ (r: @*/ Result<(), Self::Validation> /*@ ) @*/
+    //@ ensures
+    //@     // C17: flagged iff some dot is a current witness of one member here and of a different member there
+    //@     eq_ok::<M>() ==> (r is Err <==> double_spent(*self, *other)),
+    {
+        //@ let sit = self.entries.iter();
+        //@ let ghost ss = sit.remaining();
+        for (member, clock) in /*@ it1: sit @*/ /*@<*/ self.entries.iter() /*@>*/
+        //@ invariant
+        //@     params_ok::<M, A>(), self.wf(), other.wf(), it1.seq() == ss,
+        //@     forall|i: int| 0 <= i < ss.len() ==> self.ents().contains_key(*(#[trigger] ss[i]).0) && self.ents()[*ss[i].0] == *ss[i].1,
+        //@     forall|k: M| self.ents().contains_key(k) ==> ss.contains((&k, &self.ents()[k])),
+        //@     eq_ok::<M>() ==> forall|i: int, m2: M, a: A| 0 <= i < it1.index@ ==> !#[trigger] conflict(*self, *other, *ss[i].0, m2, a),
+        {
+            //@ proof { assert(*member == *ss[it1.index@].0 && *clock == *ss[it1.index@].1); assert(self.ents().contains_key(*member)); assert(nz(clock@)); }
+            //@ let oit = other.entries.iter();
+            //@ let ghost os = oit.remaining();
+            for (other_member, other_clock) in /*@ it2: oit @*/ /*@<*/ other.entries.iter() /*@>*/
+            //@ invariant
+            //@     params_ok::<M, A>(), self.wf(), other.wf(), it2.seq() == os, nz(clock@),
+            //@     self.ents().contains_key(*member), self.ents()[*member] == *clock,
+            //@     forall|i: int| 0 <= i < os.len() ==> other.ents().contains_key(*(#[trigger] os[i]).0) && other.ents()[*os[i].0] == *os[i].1,
+            //@     forall|k: M| other.ents().contains_key(k) ==> os.contains((&k, &other.ents()[k])),
+            //@     eq_ok::<M>() ==> forall|l: int, a: A| 0 <= l < it2.index@ ==> !#[trigger] conflict(*self, *other, *member, *os[l].0, a),
+            {
+                //@ proof { assert(*other_member == *os[it2.index@].0 && *other_clock == *os[it2.index@].1); assert(other.ents().contains_key(*other_member)); }
+                for Dot { actor, counter } in /*@ it3: @*/ clock.iter()
+                //@ invariant
+                //@     it3.iter.obeys_prophetic_iter_laws(), it3.iter.decrease() is Some,
+                //@     params_ok::<M, A>(), nz(clock@),
+                //@     self.ents().contains_key(*member), self.ents()[*member] == *clock,
+                //@     other.ents().contains_key(*other_member), other.ents()[*other_member] == *other_clock,
+                //@     dots_of(it3.seq(), clock@, it3.snapshot@.will_return_none()),
+                //@     eq_ok::<M>() ==> forall|e: int| 0 <= e < it3.index@ ==> !(*other_member != *member && cnt(other_clock@, *(#[trigger] it3.seq()[e]).actor) == it3.seq()[e].counter),
+                {
+                    //@ proof { if eq_ok::<M>() { lemma_eq_ok::<M>(*other_member, *member); } }
+                    if other_member != member && other_clock.get(actor) == counter {
+                        //@ proof { if eq_ok::<M>() { assert(clock@.contains_key(*actor) && clock@[*actor] == counter && counter > 0); assert(conflict(*self, *other, *member, *other_member, *actor)); } }
+                        return Err(Validation::DoubleSpentDot {
+                            dot: Dot::new(actor.clone(), counter),
+                            our_member: member.clone(),
+                            their_member: other_member.clone(),
+                        });
+                    }
+                }
+                //@ proof { if eq_ok::<M>() { assert forall|a: A| !#[trigger] conflict(*self, *other, *member, *other_member, a) by { if conflict(*self, *other, *member, *other_member, a) { assert(clock@.contains_key(a)); } } } }
+            }
+            //@ proof { if eq_ok::<M>() { assert forall|m2: M, a: A| !#[trigger] conflict(*self, *other, *member, m2, a) by { if conflict(*self, *other, *member, m2, a) { let p = (&m2, &other.ents()[m2]); assert(os.contains(p)); let l = choose|l: int| 0 <= l < os.len() && os[l] == p; assert(!conflict(*self, *other, *member, *os[l].0, a)); } } } }
+        }
+        //@ proof { if eq_ok::<M>() { assert(!double_spent(*self, *other)) by { if double_spent(*self, *other) { let (m, m2, a) = choose|m: M, m2: M, a: A| #[trigger] conflict(*self, *other, m, m2, a); let p = (&m, &self.ents()[m]); assert(ss.contains(p)); let i = choose|i: int| 0 <= i < ss.len() && ss[i] == p; assert(!conflict(*self, *other, *ss[i].0, m2, a)); } } } }
+
+        Ok(())
+    }
+//@end
 
 //@extract fn src/orswot.rs "CvRDT for Orswot" merge
     fn merge(&mut self, other: Self)
@@ -322,6 +444,58 @@ impl<M: Hash + Eq + Clone, A: Ord + Hash + Clone> CvRDT for Orswot<M, A> {
 
         self.apply_deferred();
         //@ proof { lemma_merge_finish(*old(self), other, s2, s3, s4, *self, dvs); }
+    }
+//@end
+}
+
+impl<M: Hash + Clone + Eq, A: Ord + Hash> ResetRemove<A> for Orswot<M, A> {
+    open spec fn rr_inv(&self) -> bool { actor_ok::<A>() && key_ok::<M>() && key_ok::<VClock<A>>() && self.wf() }
+
+//@extract fn src/orswot.rs "ResetRemove for Orswot" reset_remove
+    fn reset_remove(&mut self, clock: &VClock<A>)
+    //@ ensures
+    //@     // C18: the replica clock and every member forget exactly the dots the given clock covers
+    //@     final(self).cl() == vsub(old(self).cl(), clock@),
+    //@     forall|m: M| #[trigger] final(self).ec(m) == vsub(old(self).ec(m), clock@),
+    //@     // pending removes: contexts are reduced the same way, emptied ones are dropped (two contexts that become
+    //@     // equal are folded into one entry by `collect`: only one member set survives -- see DESIGN, C18)
+    //@     forall|k2: VClock<A>| #[trigger] final(self).defs().contains_key(k2) ==> exists|k: VClock<A>| #[trigger] old(self).defs().contains_key(k) && k2@ == vsub(k@, clock@) && final(self).defs()[k2] == old(self).defs()[k],
+    //@     forall|k: VClock<A>| #[trigger] old(self).defs().contains_key(k) && vsub(k@, clock@) != SMap::<A, u64>::empty() ==> exists|k2: VClock<A>| #[trigger] final(self).defs().contains_key(k2) && k2@ == vsub(k@, clock@),
+    {
+        //@ proof { assert(self.clock.rr_inv()); c10_vsub_nz(self.clock@, clock@); }
+        self.clock.reset_remove(clock);
+
+        self.entries = /*@ shim_hashmap_filter_map_collect( @*/ mem::take(&mut self.entries)
+            /*@<*/ .into_iter()
+            .filter_map( /*@>*/ /*@ , @*/ /*@<*/ | /*@>*/ /*@<pat1*/ (val, mut val_clock) /*@>*/ /*@<*/ | /*@>*/ /*@ |p: (M, VClock<A>)| -> (o: Option<(M, VClock<A>)>)
+                requires actor_ok::<A>(), nz(p.1@),
+                ensures rr_keep(p.0, p.1@, o, clock@)
+            { let $pat1 = p; @*/ {
+                val_clock.reset_remove(clock);
+                if val_clock.is_empty() {
+                    None
+                } else {
+                    Some((val, val_clock))
+                }
+            } /*@ } @*/ )
+            /*@<*/ .collect() /*@>*/ ;
+        //@ proof { lemma_rr_entries(*old(self), *self, clock@); }
+
+        self.deferred = /*@ shim_hashmap_filter_map_collect_rekey( @*/ mem::take(&mut self.deferred)
+            /*@<*/ .into_iter()
+            .filter_map( /*@>*/ /*@ , @*/ /*@<*/ | /*@>*/ /*@<pat2*/ (mut vclock, deferred) /*@>*/ /*@<*/ | /*@>*/ /*@ |p: (VClock<A>, HashSet<M>)| -> (o: Option<(VClock<A>, HashSet<M>)>)
+                requires actor_ok::<A>(), nz(p.0@),
+                ensures rr_keep_d(p.0@, p.1, o, clock@)
+            { let $pat2 = p; @*/ {
+                vclock.reset_remove(clock);
+                if vclock.is_empty() {
+                    None
+                } else {
+                    Some((vclock, deferred))
+                }
+            } /*@ } @*/ )
+            /*@<*/ .collect() /*@>*/ ;
+        //@ proof { lemma_rr_deferred(*old(self), *self, clock@); }
     }
 //@end
 }
